@@ -18,5 +18,15 @@ for mods, prefixes in WORLDS:
         out[qual] = {"params": list(con.params), "requires": con.requires, "ensures": con.ensures, "ensures_exc": con.ensures_exc,
                      "raises": con.raises, "check_invariant": bool(con.check_invariant), "fresh_self": bool(con.fresh_self),
                      "invariants": (spec.invariants if spec is not None else []), "inline": bool(con.inline), "assume_invariant": bool(con.assume_invariant)}
+# channel world: the monitor invariants and the facts that are only ASSUMED by the verifier (accounting, pending request), judged at the
+# exits of the methods where the corresponding lock is free again
+from contracts import channel as _ch
+reg = world.build_registry(os.environ.get("VERIF_EXPORT_REPO", "/repo"), ["channel"])
+always = list(_ch.OUT_INV) + list(_ch.OUT_ASSUMED)
+reqs = list(_ch.REQ_INV) + list(_ch.REQ_ASSUMED)
+for meth in ("received", "service", "handle_write", "handle_read", "handle_close", "write_soon", "send_continue", "_flush_some", "readable", "writable"):
+    qual = "channel.HTTPChannel." + meth
+    out[qual] = {"params": [], "requires": [], "ensures": [], "ensures_exc": [], "raises": [], "check_invariant": True, "fresh_self": False,
+                 "invariants": always + (reqs if meth in ("received", "service", "handle_read") else []), "inline": False, "assume_invariant": True}
 json.dump(out, open(sys.argv[1], "w"), indent=1)
 print(len(out), "contracts exported")
